@@ -190,6 +190,49 @@ def run_case(cfgs: tuple[tuple[int, bool, bool], ...], stream: tuple[tuple[str, 
     return viols
 
 
+def pending_send_case(f_early: int, f_late: int, dest: str) -> list[tuple[str, str]]:
+    """The subscription set changes while an outgoing telegram is waiting inside CEMIHandler.send_telegram for its L_Data.con
+    (up to 3 s): one callback is unregistered, another registered.  The telegram is processed when the send returns - by the
+    callbacks registered THEN: the new one sees it (if it matches), the removed one does not."""
+    viols: list[tuple[str, str]] = []
+    with CoreWorld(rate_limit=0) as w:
+        xknx = w.xknx
+        log: list[str] = []
+
+        def reg(name: str, fi: int) -> Any:
+            _label, gas, afs = FILTERS[fi]
+            return xknx.telegram_queue.register_telegram_received_cb(
+                lambda t, _n=name: log.append(_n),
+                address_filters=None if afs is None else [AddressFilter(p) for p in afs],
+                group_addresses=None if gas is None else [mk_dest(g) for g in gas],
+                match_for_outgoing=True,
+            )
+
+        always = reg("always", 0)
+        early = reg("early", f_early)
+        w.start()
+        w.iface.confirm = False
+        xknx.telegrams.put_nowait(Telegram(mk_dest(dest), payload=GroupValueWrite(DPTBinary(1)), direction=TelegramDirection.OUTGOING, source_address=IndividualAddress("1.2.3")))
+        w.run(0.1)
+        pending = len(w.iface.sent) == 1 and not log
+        xknx.telegram_queue.unregister_telegram_received_cb(early)
+        reg("late", f_late)
+        xknx.cemi_handler._l_data_confirmation_event.set()  # noqa: SLF001  the gateway's L_Data.con arrives
+        w.run(5.0)
+        want = ["always"] + (["late"] if ref_filter_matches(f_late, dest) else [])
+        ctxs = f"early={FILTERS[f_early][0]} late={FILTERS[f_late][0]} dest={dest}: callbacks called {log}, reference {want} (send was pending: {pending})"
+        if not pending:
+            viols.append(("harness:send-not-pending", ctxs))
+        if "early" in log:
+            viols.append(("callback-called-after-unregistration:pending-send", ctxs))
+        if log.count("late") != want.count("late"):
+            viols.append(("callback-not-called:registered-during-pending-send" if "late" in want else "callback-called-for-unsubscribed:registered-during-pending-send", ctxs))
+        if log.count("always") != 1:
+            viols.append(("callback-not-called:all:out" if not log.count("always") else "callback-called-twice:all:out", ctxs))
+        del always
+    return viols
+
+
 def cases(thorough: bool, seed: int) -> list[tuple[Any, Any, Any]]:
     cfgs = cb_configs()
     kinds = telegram_kinds()
@@ -226,6 +269,11 @@ def cases(thorough: bool, seed: int) -> list[tuple[Any, Any, Any]]:
         for f1 in range(len(FILTERS)):
             for o in (False, True):
                 out.append((((f0, o, False), (f1, o, False)), tuple(kinds), MUTATE))
+    # (g) the subscription set changes while an outgoing send is pending
+    for f0 in range(len(FILTERS)):
+        for f1 in range(len(FILTERS)):
+            for dest in ("1/1/1", "2/1/1", "1/2/1"):   # (internal addresses never wait for the interface)
+                out.append((("pending-send", f0, f1), dest, "PENDING"))
     # (e) streams of 3 for single callbacks (thorough)
     if thorough:
         for c in cfgs:
@@ -244,11 +292,16 @@ def worker(k: int, n: int, thorough: bool, seed: int) -> Part:
         cfgs, stream, unreg = allc[i]
         part.evaluations += 1
         try:
-            viols = run_case(cfgs, stream, unreg)
+            viols = pending_send_case(cfgs[1], cfgs[2], stream) if unreg == "PENDING" else run_case(cfgs, stream, unreg)
         except Exception as exc:  # noqa: BLE001
             viols = [(exc_sig("escape", exc), f"{exc!r} for {allc[i]}")]
         if len(cfgs) > 1 or len(stream) > 1:
             part.nontrivial += 1
+        if unreg == "PENDING":
+            part.outcomes["pending-send"] += 1
+            for sig, detail in viols:
+                part.viol(sig, detail, [list(cfgs), stream, unreg], rank=(2, 1, i))
+            continue
         part.outcomes[f"{len(cfgs)}cb/{len(stream)}tg/{'unreg' if unreg is not None else 'plain'}"] += 1
         for sig, detail in viols:
             part.viol(sig, detail, [list(map(list, cfgs)), list(map(list, stream)), unreg], rank=(len(cfgs), len(stream), i))
@@ -262,7 +315,7 @@ def run(ctx: Ctx) -> None:
     ctx.rule = (
         f"real XKNX/TelegramQueue on the virtual loop, fresh per case: callback configurations = {len(FILTERS)} filter shapes (none, address lists incl. internal and duplicates, patterns incl. internal "
         f"globs, ranges and lists, both, empty list + pattern) x outgoing flag x raising = {len(cb_configs())}; telegram kinds = {len(telegram_kinds())} (8 destinations incl. unmatched and internal x in/out x write/read). (a) every single callback x ALL streams of <=2 telegrams; (b) ALL ordered pairs of callbacks x every telegram (thorough: x all pairs of 7 kinds); "
-        "(c) pairs with each one unregistered between two passes of the stream; (d) all triples over a reduced set; (e, thorough) streams of 3; (f) all ordered pairs of filter shapes where the first callback's handle gets an address and a pattern appended in place after registration (only that callback's subscription changes). Oracle: the invocation log equals the statement's "
+        "(c) pairs with each one unregistered between two passes of the stream; (d) all triples over a reduced set; (e, thorough) streams of 3; (f) all ordered pairs of filter shapes where the first callback's handle gets an address and a pattern appended in place after registration (only that callback's subscription changes); (g) all ordered pairs of filter shapes x 3 destinations where one callback is unregistered and another registered while an outgoing telegram waits for its L_Data.con: the telegram is processed by the callbacks registered when the send returns. Oracle: the invocation log equals the statement's "
         "predicate (independent filter grammar) as a multiset - each matching (callback, telegram) exactly once, nothing else - and the device on 1/1/1 processes every telegram to it once, raising callbacks or not."
     )
     total = len(cases(ctx.thorough, ctx.seed))
@@ -272,4 +325,6 @@ def run(ctx: Ctx) -> None:
 
 def replay(case: Any) -> list[tuple[str, str]]:
     cfgs, stream, unreg = case
+    if unreg == "PENDING":
+        return pending_send_case(cfgs[1], cfgs[2], stream)
     return run_case(tuple(tuple(c) for c in cfgs), tuple(tuple(s) for s in stream), unreg)
